@@ -51,6 +51,8 @@ def is_obj(v):
 
 def jtext(v):
     """AST -> JSON text (bytes), duplicates and order preserved."""
+    if isinstance(v, tuple) and len(v) == 2 and v[0] == "rawframe":
+        return v[1]
     if v is None:
         return b"null"
     if v is True:
@@ -88,6 +90,8 @@ def vint_of(d):
 
 def jtokens(v):
     """AST -> line-protocol tokens of the Lean driver (what cJSON's parser yields for jtext(v))."""
+    if isinstance(v, tuple) and len(v) == 2 and v[0] == "rawframe":
+        return []                # not a message the model can be told about (only used in scenarios outside the model)
     if v is None:
         return ["n"]
     if v is True:
@@ -228,6 +232,8 @@ def project(v, strict_errors=False):
 # --------------------------------------------------------------------------- scenario -> scripts
 
 def frame_for(transport, value):
+    if isinstance(value, tuple) and len(value) == 2 and value[0] == "rawframe":
+        return value[1]          # bytes put on the wire as they are (a frame with a header of the test's own making)
     text = value if isinstance(value, bytes) else jtext(value)
     if transport == "ws":
         return L.ws_frame(text)
